@@ -13,8 +13,10 @@ mod c03;
 mod c04;
 mod c05;
 mod c06;
+mod c08;
 mod c09;
 mod c09_recipe;
+mod c10;
 mod c11;
 mod c12;
 mod c13;
@@ -47,7 +49,9 @@ fn dispatch(id: &str) -> Option<(fn(Tier) -> i32, ReplayFn)> {
         "C04" => (c04::run, c04::replay),
         "C05" => (c05::run, c05::replay),
         "C06" => (c06::run, c06::replay),
+        "C08" => (c08::run, c08::replay),
         "C09" => (c09::run, c09::replay),
+        "C10" => (c10::run, c10::replay),
         "C11" => (c11::run, c11::replay),
         "C12" => (c12::run, |_p, j| c12::replay(j)),
         "C13" => (c13::run, c13::replay),
